@@ -128,6 +128,8 @@ Eval(id, c) ==
       [] id = "mp_prod" -> T3(InR(c.kh * c.kw, MpPLo, MpPHi))
       [] id = "ap_stride_pad" -> T3(c.sw >= ApSwMin /\ (c.sw > ApSwValidAbove => c.pad = "VALID"))
       [] id = "ap_filter" -> T3(InR(c.kh, ApFLo, ApFHi) /\ InR(c.kw, ApFLo, ApFHi))
+      [] id = "ap_filter_same" -> T3(c.pad # "SAME" \/ (InR(c.kh, ApFLo, ApFHi) /\ InR(c.kw, ApFLo, ApFHi)))
+      [] id = "wsym" -> T3(c.dt \notin {"int8", "int16"} \/ c.wzp = 0)
       [] id = "ap_vh" -> T3(c.pad # "VALID" \/ InR(c.kh, ApVHLo, ApVHHi))
       [] id = "ap_vprod" -> T3(c.pad # "VALID" \/ InR(c.kh * c.kw, ApVPLo, ApVPHi))
       [] id = "either_shape" -> T3(c.s1 = c.so \/ c.s2 = c.so)
